@@ -279,3 +279,18 @@ add("C19",
     shards={"quick": 16, "thorough": 16},
     require_counts=["differential_comparisons", "action:TruncateCached", "action:uncached:Forget"],
     )
+
+add("C12",
+    engine="SEQ",
+    level="model_checking",
+    technique="exhaustive enumeration of small repository pairs, tree pairs/triples, glob sets and single losses, each judged on the real commands against reference results (restore equality, reference merge, reference exclude, repair specification)",
+    design_ref="DESIGN.md §4.1, §5 C12",
+    level_text="copy: two source repositories (one holding tree/data id collisions) x four destinations (empty; already holding some blobs; other key + repo v1 + one-blob packs; other key + compression 19 + default chunker) x every non-empty subset of three snapshots sharing blobs: "
+               "each copied snapshot must restore identically, the destination must pass check --read-data and hold no blob twice. merge: every pair (and triples over a subset) of trees with entries a,b of kind {absent, file v1, file v2, symlink, dir with sub-entries} under three orderings "
+               "(last modified, first modified, always equal): the merged tree must be a valid merge by a recursive reference (union of names, winner among the maximal candidates, directories merged from all contending directories). rewrite: three trees x every set of <=2 of four exclude globs x forget: "
+               "result equals the source minus the excluded paths with identical metadata, originals removed iff forget. repair: an undamaged repository is left untouched with zero writes; for every single pack removed (+repair-index) and every single blob entry dropped from the index, x delete: "
+               "every new snapshot is completely readable, every entry not carrying the suffix has its original content, no path vanishes unless a tree was lost, originals are removed only with delete.",
+    level_note="states = distinct (scenario, result) pairs; glob semantics are transcribed by hand for the four exclude patterns used.",
+    shards={"quick": 16, "thorough": 16},
+    require_counts=["copy_cases", "merge_cases", "rewrite_cases", "repair_cases", "repaired_marked_entries", "copy_into_nonempty_wrote_packs"],
+    )
